@@ -3,7 +3,7 @@ crash image's durable log and table pages and compared slot by slot with the pag
 engine's recovery writes (taken from the recovery run's own I/O trace), and the
 well-formedness predicates the theorems assume are evaluated on the real log/pages."""
 import os, subprocess
-from vlib import BUILD
+from vlib import BUILD, big_stack
 from crashlib import *
 
 
@@ -32,5 +32,5 @@ def driver_input(img, recovery_trace):
 
 
 def run_driver(text):
-    p = subprocess.run([os.path.join(BUILD, "wal_driver")], input=text, capture_output=True, text=True, timeout=600)
+    p = subprocess.run([os.path.join(BUILD, "wal_driver")], input=text, capture_output=True, text=True, timeout=600, preexec_fn=big_stack)
     return p.returncode, p.stdout.strip().split("\n")
